@@ -317,8 +317,13 @@ class Env(object):
                     it = [int(x) for x in lst]
                 except Exception as e:  # noqa
                     it = "exc:" + type(e).__name__
-                out[".".join(prefix + (f["name"],))] = {"len": n, "size": int(lst.size), "iter": it, "index": idx,
-                                                        "model_len": len(lst.get_model().field_l)}
+                try:
+                    # the other read paths: membership and the printed form
+                    extra = {"contains_all": all((v in lst) for v in it) if isinstance(it, list) else None, "str": str(lst)}
+                except Exception as e:  # noqa
+                    extra = {"contains_all": None, "str": "exc:" + type(e).__name__}
+                out[".".join(prefix + (f["name"],))] = dict({"len": n, "size": int(lst.size), "iter": it, "index": idx,
+                                                             "model_len": len(lst.get_model().field_l)}, **extra)
             elif f["kind"] == "obj":
                 with vsc.raw_mode():
                     sub = getattr(obj, f["name"])
@@ -424,6 +429,14 @@ class Env(object):
             return {"values": self.snapshot_obj(o)}
         if k == "l_append":
             self.resolve(o, op["path"]).append(op["value"])
+            return {"values": self.snapshot_obj(o), "lists": self.list_views(o)}
+        if k == "l_selfassign":
+            # o.l = o.l : must leave the list as it is
+            path = op["path"]
+            tgt = self.resolve(o, path[:-1])
+            with vsc.raw_mode():
+                cur = getattr(tgt, path[-1])
+            setattr(tgt, path[-1], cur)
             return {"values": self.snapshot_obj(o), "lists": self.list_views(o)}
         if k == "l_clear":
             self.resolve(o, op["path"]).clear()
